@@ -47,6 +47,7 @@ type Interp struct {
 	funcsHit map[string]int
 	steps    int
 	goq      []func()
+	pools    map[*Value][]Value
 	curRecoverFrame []*frame
 	initRunning bool
 	threads     []*thread
@@ -147,6 +148,18 @@ func (in *Interp) allocGlobals(pkg *ssa.Package) {
 		if g, ok := m.(*ssa.Global); ok {
 			if _, done := in.globals[g]; !done {
 				v := zero(g.Type().(*types.Pointer).Elem())
+				if pkg.Pkg.Path() == "encoding/json" && (g.Name() == "safeSet" || g.Name() == "htmlSafeSet") {
+					// the package initialiser is not interpretable (reflection); these two tables are what the
+					// string encoder needs: printable ASCII and DEL are safe, except " and \ (and < > & for HTML)
+					arr := v.(Array)
+					for b := 0x20; b < len(arr) && b < 0x80; b++ {
+						safe := b != '"' && b != '\\'
+						if g.Name() == "htmlSafeSet" && (b == '<' || b == '>' || b == '&') {
+							safe = false
+						}
+						arr[b] = BoolConst(safe)
+					}
+				}
 				if pkg.Pkg.Path() == "crypto/rand" && g.Name() == "Reader" {
 					// environment: reads succeed and leave the buffer as it is (content is arbitrary for the callers)
 					v = Iface{T: types.Typ[types.Int], V: Opaque{"crypto/rand.Reader"}}
